@@ -4,7 +4,7 @@
 over arguments, laws checked by TLC (C14_Order.tla) on all pairs and triples;
 (2) every item of the TLC-generated sentence space rebuilt from ident / spec,
 copied, deep-copied, pickled; (3) TLC model-checks the cache model LexCache.tla
-and every construction history of depth d over a 6-item universe (incl. identity
+and every construction history of depth d over a 7-item universe (incl. identity
 and existence sentences) is replayed under ITEM_CACHE_SIZE = 1, 2, 3.
 """
 import itertools
@@ -37,7 +37,7 @@ def run(rep):
         jobs.append(('d_lexorder.py', ['rebuild', sents, d / f'rebuild{k}.ndjson', k, ns], {'hooks': False}))
     # construction histories under small caches
     depth = 4 if thorough else 3
-    alphabet = [(op, k) for op in OPS for k in range(6)]
+    alphabet = [(op, k) for op in OPS for k in range(7)]
     hf = d / 'hist.ndjson'
     with open(hf, 'w') as f:
         for n, seq in enumerate(itertools.product(alphabet, repeat=depth)):
@@ -74,7 +74,7 @@ def run(rep):
                 distinct.update(('matrix', c['id'], json.dumps(x)) for x in c['items'])
     rep.cov['distinct_nontrivial'] = len(distinct)
     rep.cov['rule'] = ('records = 2 comparison matrices (all pairs and triples of ~90 items / ~14 arguments) + one rebuild record per '
-                       'sub-item of the TLC-generated sentences + one record per construction history (depth %d over 4 ops x 6 items) '
+                       'sub-item of the TLC-generated sentences + one record per construction history (depth %d over 4 ops x 7 items) '
                        'under cache sizes 1,2,3; distinct = distinct items rebuilt + distinct (history, cache size) + distinct matrix items' % depth)
     with open(d / 'rebuild0.ndjson') as f:
         rep.sample(json.loads(f.readline()))
